@@ -120,5 +120,36 @@ Fixpoint cell_amounts (diff negate : bool) (es : list entry) (sel : account -> b
     (if negate then neg shown else shown) :: cell_amounts diff negate es sel c rest total'
   end.
 
+(* a numeric cell holding a decimal of the same value (cmp = 0) *)
+Definition num_is (cl : cell) (d : dec) : Prop :=
+  match cl with CNum n => dec_equal n d = true | _ => False end.
+
+(* the lines of one account block against the ledger: one line per commodity, the name on the
+   first, the commodity, then per column the amount *)
+Fixpoint lines_ok (name : str) (indent : Z) (first : bool) (coms : list commodity) (amts : commodity -> list dec)
+         (b : list (list cell)) : Prop :=
+  match coms, b with
+  | [], [] => True
+  | c :: coms', line :: b' =>
+    (exists nums, line = (if first then CText name ALeft indent else CEmpty) :: CText c ALeft 0 :: nums
+                  /\ Forall2 num_is nums (amts c))
+    /\ lines_ok name indent false coms' amts b'
+  | _, _ => False
+  end.
+
+Definition block_ok (w : nat) (name : str) (indent : Z) (coms : list commodity) (amts : commodity -> list dec)
+           (b : list (list cell)) : Prop :=
+  match coms with
+  | [] => b = [CText name ALeft indent :: repeat CEmpty (w - 1)]
+  | _ => lines_ok name indent true coms amts b
+  end.
+
+(* strictly ascending commodities *)
+Fixpoint coms_sorted (l : list commodity) : Prop :=
+  match l with
+  | [] => True
+  | c :: l' => Forall (fun d => str_cmp c d = Lt) l' /\ coms_sorted l'
+  end.
+
 Definition balance_render_cfg (cfg : balance_cfg) : render_cfg :=
   mkRenderCfg (bc_valuation cfg) (bc_details cfg) (bc_alpha cfg) (bc_diff cfg).
